@@ -232,6 +232,20 @@ func (h *c04Heap) exec(c *c04Call) (res Res2) {
 			res = Res2{"panic", 0}
 		}
 	}()
+	// callbacks the library invokes observe the heap: while a non-mutating operation runs, every existing collection (the receiver
+	// included) still holds what it held before the call
+	before, _ := json.Marshal(h.project())
+	disturbed := false
+	mid := func() {
+		if now, _ := json.Marshal(h.project()); string(now) != string(before) {
+			disturbed = true
+		}
+	}
+	defer func() {
+		if disturbed && res.K != "panic" {
+			res = Res2{"disturbed-during-call", 0}
+		}
+	}()
 	coll := func(p interface{}) Res2 {
 		h.slots = append(h.slots, p)
 		return Res2{"coll", len(h.slots)}
@@ -247,11 +261,13 @@ func (h *c04Heap) exec(c *c04Call) (res Res2) {
 		switch c.Op {
 		case "Map":
 			f := trI(c.F)
-			return coll(s.Map(f))
+			return coll(s.Map(func(e, i int) int { mid(); return f(e, i) }))
 		case "Filter":
-			return coll(s.Filter(predI(c.F)))
+			p := predI(c.F)
+			return coll(s.Filter(func(e, i int) bool { mid(); return p(e, i) }))
 		case "Reject":
-			return coll(s.Reject(predI(c.F)))
+			p := predI(c.F)
+			return coll(s.Reject(func(e, i int) bool { mid(); return p(e, i) }))
 		case "FilterNotNil":
 			return coll(s.FilterNotNil())
 		case "Distinct":
@@ -270,9 +286,9 @@ func (h *c04Heap) exec(c *c04Call) (res Res2) {
 			return coll(s.Reverse())
 		case "Sort":
 			if c.F == "asc" {
-				return coll(s.Sort(func(a, b int) bool { return a < b }))
+				return coll(s.Sort(func(a, b int) bool { mid(); return a < b }))
 			}
-			return coll(s.Sort(func(a, b int) bool { return a > b }))
+			return coll(s.Sort(func(a, b int) bool { mid(); return a > b }))
 		case "SortByIndex":
 			return coll(s.SortByIndex(func(i, j int) bool { return (*s)[i] < (*s)[j] }))
 		case "Minus":
@@ -306,13 +322,13 @@ func (h *c04Heap) exec(c *c04Call) (res Res2) {
 		switch c.Op {
 		case "Map":
 			f := trI(c.F)
-			return coll(s.Map(func(x interface{}, i int) interface{} { return f(x.(int), i) }))
+			return coll(s.Map(func(x interface{}, i int) interface{} { mid(); return f(x.(int), i) }))
 		case "Filter":
 			p := predI(c.F)
-			return coll(s.Filter(func(x interface{}, i int) bool { return p(x.(int), i) }))
+			return coll(s.Filter(func(x interface{}, i int) bool { mid(); return p(x.(int), i) }))
 		case "Reject":
 			p := predI(c.F)
-			return coll(s.Reject(func(x interface{}, i int) bool { return p(x.(int), i) }))
+			return coll(s.Reject(func(x interface{}, i int) bool { mid(); return p(x.(int), i) }))
 		case "FilterNotNil":
 			return coll(s.FilterNotNil())
 		case "Distinct":
@@ -335,9 +351,9 @@ func (h *c04Heap) exec(c *c04Call) (res Res2) {
 			return coll(s.Reverse())
 		case "Sort":
 			if c.F == "asc" {
-				return coll(s.Sort(func(a, b interface{}) bool { return a.(int) < b.(int) }))
+				return coll(s.Sort(func(a, b interface{}) bool { mid(); return a.(int) < b.(int) }))
 			}
-			return coll(s.Sort(func(a, b interface{}) bool { return a.(int) > b.(int) }))
+			return coll(s.Sort(func(a, b interface{}) bool { mid(); return a.(int) > b.(int) }))
 		case "SortByIndex":
 			return coll(s.SortByIndex(func(i, j int) bool { return (*s)[i].(int) < (*s)[j].(int) }))
 		case "Minus":
@@ -513,10 +529,10 @@ type Res2 struct {
 }
 
 type c04Line struct {
-	D    int       `json:"d"`
-	C    *c04Call  `json:"c,omitempty"`
-	Res  *Res2     `json:"res,omitempty"`
-	Heap []c04Obj  `json:"heap"`
+	D    int      `json:"d"`
+	C    *c04Call `json:"c,omitempty"`
+	Res  *Res2    `json:"res,omitempty"`
+	Heap []c04Obj `json:"heap"`
 }
 
 type c04Program struct {
